@@ -197,33 +197,20 @@ theorem C17_partial_cognito (cache : String → Option Members) (asked : List St
 /-! ### Tie to the source (T1) -/
 
 theorem C17_skeleton_Update : Sso.Generated.skel_fillcache_Update =
-    ["call:NewLogEntry", "call:WithUserGroup", "call:Info", "call:Lock", "if{", "call:Unlock", "return", "}",
-     "store:c.inflight[]", "call:Unlock", "call:fillFunc", "call:Lock", "defer:Unlock", "call:delete",
-     "if{", "store:c.cache[]", "return", "}", "if{", "call:delete", "}",
-     "call:Sprintf", "call:Sprintf", "call:Incr", "call:WithUserGroup", "call:Error", "return"] := by decide
+    ["call:Lock", "if{", "call:Unlock", "return", "}", "store:c.inflight[]", "call:Unlock", "call:fillFunc", "call:Lock", "defer:Unlock", "call:delete", "if{", "store:c.cache[]", "return", "}", "if{", "call:delete", "}", "return"] := by decide
 
 theorem C17_skeleton_RefreshLoop : Sso.Generated.skel_fillcache_RefreshLoop =
-    ["if{", "}", "call:Float64", "call:float64", "call:Duration", "call:Sleep", "call:Lock",
-     "if{", "call:Unlock", "return", "}", "store:c.refreshLoopGroups[]", "call:Unlock", "call:NewTicker",
-     "go{", "call:NewLogEntry", "defer{", "call:Lock", "call:delete", "call:Unlock", "}", "call:Update",
-     "if{", "call:WithUserGroup", "call:Info", "}", "for{", "select{", "comm{", "return", "}",
-     "comm{", "call:Update", "if{", "call:WithUserGroup", "call:Info", "}", "}", "}", "}", "}", "return"] := by decide
+    ["if{", "}", "call:Float64", "call:float64", "call:Duration", "call:Sleep", "call:Lock", "if{", "call:Unlock", "return", "}", "store:c.refreshLoopGroups[]", "call:Unlock", "call:NewTicker", "go{", "defer{", "call:Lock", "call:delete", "call:Unlock", "}", "call:Update", "if{", "}", "for{", "select{", "comm{", "return", "}", "comm{", "call:Update", "if{", "}", "}", "}", "}", "}", "return"] := by decide
 
 theorem C17_skeleton_GroupCache : Sso.Generated.skel_groupcache_ValidateGroupMembership =
-    ["call:Strings", "call:Join", "call:Get", "if{", "call:Incr", "return", "}", "call:Incr",
-     "call:ValidateGroupMembership", "if{", "return", "}", "call:Set", "return"] := by decide
+    ["call:Strings", "call:Join", "call:Get", "if{", "return", "}", "call:ValidateGroupMembership", "if{", "return", "}", "call:Set", "return"] := by decide
 
 theorem C17_skeleton_membership :
     Sso.Generated.skel_fillcache_Get = ["call:RLock", "defer:RUnlock", "return"] ∧
     Sso.Generated.skel_google_ValidateGroupMembership =
-      ["call:NewLogEntry", "call:len", "if{", "return", "}", "range{", "call:Get", "if{", "call:RefreshLoop", "if{",
-       "call:WithUserGroup", "call:Info", "call:Sprintf", "call:Incr", "}", "}", "if{", "call:append", "}", "}",
-       "if{", "call:CheckMemberships", "return", "}", "return"] ∧
+      ["call:len", "if{", "return", "}", "range{", "call:Get", "if{", "call:RefreshLoop", "if{", "}", "}", "if{", "call:append", "}", "}", "if{", "call:CheckMemberships", "return", "}", "return"] ∧
     Sso.Generated.skel_cognito_ValidateGroupMembership =
-      ["call:NewLogEntry", "call:len", "if{", "return", "}", "call:GetUserProfile", "if{", "return", "}", "if{", "call:New", "return", "}",
-       "range{", "call:Get", "if{", "call:RefreshLoop", "if{", "call:WithUserGroup", "call:Info", "call:Sprintf", "call:Incr", "}", "}",
-       "if{", "call:append", "}", "}", "if{", "call:CheckMemberships", "if{", "return", "}",
-       "range{", "range{", "if{", "call:append", "break", "}", "}", "}", "}", "return"] := by decide
+      ["call:len", "if{", "return", "}", "call:GetUserProfile", "if{", "return", "}", "if{", "call:New", "return", "}", "range{", "call:Get", "if{", "call:RefreshLoop", "if{", "}", "}", "if{", "call:append", "}", "}", "if{", "call:CheckMemberships", "if{", "return", "}", "range{", "range{", "if{", "call:append", "break", "}", "}", "}", "}", "return"] := by decide
 
 /-! ### Non-vacuity -/
 
